@@ -271,12 +271,18 @@ macro_rules! drive {
                         };
                         $src.tree().put(world::SENTINEL, "la", format!("ok:S{sentinel_version}").into_bytes(), Variant::Buffer);
                         $src.send(&OwnedEntry::File(world::SENTINEL.to_string(), "la".to_string()));
-                        loop {
+                        let mut applied = false;
+                        for _ in 0..4000 {
                             hot_reload_of(&$cache);
                             if $cache.as_any_cache().get_cached::<Leaf>(world::SENTINEL).map(|h| h.last_reload_id()) != Some(before) {
+                                applied = true;
                                 break;
                             }
                             std::thread::yield_now();
+                        }
+                        if !applied {
+                            $out.fail("reload-lost", format!("step {step}: the notified change of the sentinel (loaded just before) was not applied by 4000 hot_reload calls; crate log: {}", crate::tracelog::tail(60)));
+                            break;
                         }
                     } else {
                         // no reloader: nothing to wait for; a fixed number of calls gives a reloader that
@@ -426,6 +432,7 @@ impl Prop for C10 {
     fn run(&self, case: &Value) -> Outcome {
         let c: Case = from_case(case);
         let mut out = Outcome::new();
+        let _trace = crate::tracelog::scoped_trace();
         world::reset();
         let hot = c.ctor == Ctor::WithReloader;
         let src = MemSource::new(hot);
